@@ -213,3 +213,16 @@ Definition b_min (s : sspec) (f : N) : option N := hd_error (b_numbers s f).
 Definition b_max (s : sspec) (f : N) : option N := hd_error (rev (b_numbers s f)).
 Definition b_range (s : sspec) (f : N) (lo hi : N) : list (N * nat) :=
   group_counts (filter (fun p => negb (f_lt p lo) && f_lt p hi) (b_numbers s f)).
+
+(* ---------- the region of histories outside known finding 5, and well-formed documents ---------- *)
+Definition fresh (sp : sspec) (o : iop) : bool :=
+  match o with IAddDoc d _ => negb (existsb (fun y => N.eqb d (fst y)) (sp_live sp)) | _ => true end.
+Fixpoint fresh_from (sp : sspec) (ops : list iop) : bool :=
+  match ops with [] => true | o :: r => fresh sp o && fresh_from (sp_step sp o) r end.
+(* no IAddDoc names a document that is live at that moment *)
+Definition fresh_adds (ops : list iop) : bool := fresh_from spinit ops.
+(* a document has at most one value per field (it is a map in the implementation) *)
+Fixpoint nodupN (l : list N) : bool :=
+  match l with [] => true | x :: r => negb (memN x r) && nodupN r end.
+Definition wf_op (o : iop) : bool := match o with IAddDoc _ vals => nodupN (map fst vals) | _ => true end.
+Definition wf_ops (ops : list iop) : bool := forallb wf_op ops.
